@@ -47,11 +47,13 @@ Definition spec_queries (keys : list (list Z)) (qs : list (Z * Z * Z)) : list (Z
 Inductive spec_step : Type :=
 | SCount (s e m : Z)
 | SShard (maxSize : Z)
-| SFdb.
+| SFdb
+| SRepeat (n s e m : Z).   (* n >= 1 identical questions: the last answer is the answer *)
 
 Definition spec_session (keys : list (list Z)) (steps : list spec_step) : list (Z * list Z) :=
   map (fun st => match st with
                  | SCount s e m => spec_CountPrefixes keys s e m
                  | SShard _ => (0, [])
                  | SFdb => (0, spec_FirstDiffBits keys)
+                 | SRepeat _ s e m => spec_CountPrefixes keys s e m
                  end) steps.
